@@ -5,6 +5,7 @@ P = 'photutils/psf/photometry.py::PSFPhotometry'
 
 
 def register(reg):
+    register_fit_window(reg)
     # result(p) = mask(p) or not finite(image(p)); None iff no mask was given and all finite
     reg.add(Contract(
         target=f'{P}._make_mask', props=['C12'], kind='staticmethod', tag='mask-given',
@@ -35,3 +36,54 @@ def register(reg):
         ],
         mutants=[('~np.isfinite(image)', 'np.isfinite(image)')],
     ))
+
+
+def register_fit_window(reg):
+    """_define_fit_data, per source: the fit window is the fit_shape box centred on the initial
+    position, clipped to the image (through the verified _overlap_slices contract); the pixels
+    handed to the fitter are exactly the unmasked pixels of that window with their own coordinates,
+    the fitted values are the data there minus the source's local background, and npixfit is their
+    number -- "npixfit ... reflect the mask [and] edges"."""
+    my = 'ceil(ycen - self.fit_shape[0] / 2)'
+    mx = 'ceil(xcen - self.fit_shape[1] / 2)'
+    reg.record('PSFPhotometry@fit-window', {'fit_shape': ('tuple', 'pos', 'pos')})
+    box = '(0, slc_lg[0].stop - slc_lg[0].start), (0, slc_lg[1].stop - slc_lg[1].start)'
+    for tag, mspec, mreq in (('mask', ('arr', 2, 'bool', 'nonempty'), ['mask.shape == data.shape']),
+                             ('no-mask', ('const', None), [])):
+        sel = ('not mask[j + slc_lg[0].start, i + slc_lg[1].start]' if mreq else 'True')
+        reg.add(Contract(
+            target=f'{P}._define_fit_data', props=['C12'], kind='method', tag='window-' + tag,
+            block=('slc_lg', 'npixfit'),
+            params={'self': 'PSFPhotometry@fit-window',
+                    'data': ('arr', 2, 'real', 'nonfinite', 'nonempty'), 'mask': mspec,
+                    'xcen': 'real', 'ycen': 'real', 'row': ('dict', {'local_bkg': 'real'}),
+                    'xi': ('const', []), 'yi': ('const', []), 'cutout': ('const', []),
+                    'npixfit': ('const', [])},
+            requires=mreq + ['0 <= xcen and xcen <= data.shape[1] - 1',
+                             '0 <= ycen and ycen <= data.shape[0] - 1'],
+            ensures=[
+                ('window-is-the-fit-box-clipped-to-the-image',
+                 f'slc_lg[0].start == max(0, {my}) and slc_lg[0].stop == min(data.shape[0], {my} + '
+                 f'self.fit_shape[0]) and slc_lg[1].start == max(0, {mx}) and slc_lg[1].stop == '
+                 f'min(data.shape[1], {mx} + self.fit_shape[1])'),
+                ('fitted-pixels-are-the-unmasked-window-pixels',
+                 f'forall(lambda j, i: iff(sel(xi[0], j, i), {sel}) and iff(sel(yi[0], j, i), {sel}) '
+                 f'and iff(sel(cutout[0], j, i), {sel}), {box})'),
+                ('with-their-own-coordinates',
+                 'forall(lambda j, i: val(xi[0], j, i) == i + slc_lg[1].start and '
+                 f'val(yi[0], j, i) == j + slc_lg[0].start, {box})'),
+                ('fitted-values-are-data-minus-local-background',
+                 'forall(lambda j, i: val(cutout[0], j, i) == data[j + slc_lg[0].start, '
+                 f'i + slc_lg[1].start] - row["local_bkg"], {box})'),
+                ('npixfit-counts-them',
+                 'len(npixfit) == 1 and npixfit[0] == ' + (
+                     'np.count_nonzero(~mask[slc_lg])' if mreq else
+                     '(slc_lg[0].stop - slc_lg[0].start) * (slc_lg[1].stop - slc_lg[1].start)')),
+            ],
+            mutants=[('(ycen, xcen), mode', '(xcen, ycen), mode'),
+                     ('cutout.append(data[yy, xx] - local_bkg)', 'cutout.append(data[xx, yy] - local_bkg)'),
+                     ('cutout.append(data[yy, xx] - local_bkg)', 'cutout.append(data[yy, xx])'),
+                     ('npixfit.append(len(xx))', 'npixfit.append(len(xx) + 1)')]
+            + ([('inv_mask = ~mask[yy, xx]', 'inv_mask = ~mask[xx, yy]'),
+                ('xx = xx[inv_mask]', 'xx = xx[~inv_mask]')] if mreq else []),
+        ))
